@@ -141,6 +141,10 @@ struct ThreadSt {
     held: Vec<Held>,
     cur_op: u32,
     prio: u32,
+    /// grants to this thread so far
+    grants: u64,
+    /// set while the current operation holds no lock after having held one: grants to other threads at that moment
+    gap_open: Option<u64>,
 }
 
 #[derive(Default)]
@@ -212,6 +216,12 @@ pub struct State {
     pub reentrant_seen: Vec<(u32, &'static Location<'static>, &'static Location<'static>)>,
     /// step counter value at the start of the client phase (policies count steps from here)
     pub phase_base: u64,
+    /// nested blocking acquisitions seen: (operation, held lock, requested lock); harvested by the single-client driver
+    pub nested: Vec<(u32, Held, LockRequest)>,
+    pub harvest_nested: bool,
+    pub total_grants: u64,
+    /// operations that released all their locks in mid-flight while another thread acquired locks (labels)
+    pub interrupted_ops: Vec<u32>,
 }
 
 pub struct Engine {
@@ -284,6 +294,8 @@ impl State {
                 held: Vec::new(),
                 cur_op: 0,
                 prio,
+                grants: 0,
+                gap_open: None,
             });
         }
         Self {
@@ -309,6 +321,10 @@ impl State {
             op_try_timed: 0,
             reentrant_seen: Vec::new(),
             phase_base: 0,
+            nested: Vec::new(),
+            harvest_nested: false,
+            total_grants: 0,
+            interrupted_ops: Vec::new(),
         }
     }
 
@@ -407,6 +423,14 @@ impl State {
 
     fn do_grant(&mut self, tid: usize, req: &LockRequest) {
         let op = self.threads[tid].cur_op;
+        self.total_grants += 1;
+        self.threads[tid].grants += 1;
+        if let Some(others_then) = self.threads[tid].gap_open.take() {
+            let others_now = self.total_grants - self.threads[tid].grants;
+            if others_now > others_then && !self.interrupted_ops.contains(&op) {
+                self.interrupted_ops.push(op);
+            }
+        }
         {
             let l = self.lock_mut(req.id);
             match req.mode {
@@ -547,6 +571,14 @@ impl State {
         let is_try_or_timed = !matches!(req.kind, LockKind::Blocking);
         if first {
             self.ev_req(tid, "request", &req);
+            if self.harvest_nested && matches!(req.kind, LockKind::Blocking) && !self.threads[tid].held.is_empty() && self.nested.len() < 4096 {
+                let op = self.threads[tid].cur_op;
+                for h in self.threads[tid].held.clone() {
+                    if !self.nested.iter().any(|(o, hh, r)| *o == op && hh.lock == h.lock && hh.mode == h.mode && r.id == req.id && r.mode == req.mode) {
+                        self.nested.push((op, h, req));
+                    }
+                }
+            }
             if is_try_or_timed {
                 self.counters.try_timed += 1;
                 self.op_try_timed += 1;
@@ -670,6 +702,9 @@ impl State {
         if remove {
             self.locks.remove(&id);
         }
+        if self.threads[tid].held.is_empty() {
+            self.threads[tid].gap_open = Some(self.total_grants - self.threads[tid].grants);
+        }
         self.ev(tid, "release", None, id, class, mode);
     }
 
@@ -740,6 +775,7 @@ impl Engine {
         {
             let mut st = self.st();
             st.threads[tid].cur_op = op;
+            st.threads[tid].gap_open = None;
             st.op_try_timed = 0;
             st.published_below = autosar_data::verif::peek_next_lock_id();
             st.ev_plain(tid, "op-start");
